@@ -21,7 +21,7 @@ int KSI_VerificationRule_AggregationHashChainTimeConsistency(KSI_VerificationCon
 __CPROVER_requires(VR_PRE(info, result) && VL_PRE)
 __CPROVER_ensures(VR_POST(vl_exp_walk(info, 1, SPEC_VERR_INT(2)), result))
 __CPROVER_ensures(VL_COMPLETE(info, result))
-__CPROVER_assigns(result != NULL: *result; g_vl_calls, g_vl_prev, g_vl_fail, g_vl_c[0].aggregationTime, g_vl_c[1].aggregationTime, g_vl_time[0], g_vl_time[1]);
+__CPROVER_assigns(result != NULL: *result; g_vl_calls, g_vl_prev, g_vl_fail, g_vl_time[0].value, g_vl_time[1].value);
 #endif
 
 #if defined(VL_MODE_ALG)
@@ -30,7 +30,7 @@ int KSI_VerificationRule_AggregationChainHashAlgorithmVerification(KSI_Verificat
 __CPROVER_requires(VR_PRE(info, result) && VL_PRE)
 __CPROVER_ensures(VR_POST(vl_exp_walk(info, 0, SPEC_VERR_INT(15)), result))
 __CPROVER_ensures(VL_COMPLETE(info, result))
-__CPROVER_assigns(result != NULL: *result; g_vl_calls, g_vl_prev, g_vl_fail, g_vl_c[0].aggregationTime, g_vl_c[1].aggregationTime, g_vl_c[0].aggrHashId, g_vl_c[1].aggrHashId, g_vl_time[0], g_vl_time[1], g_vl_algid[0], g_vl_algid[1]);
+__CPROVER_assigns(result != NULL: *result; g_vl_calls, g_vl_prev, g_vl_fail, g_vl_time[0].value, g_vl_time[1].value, g_vl_algid[0].value, g_vl_algid[1].value);
 #endif
 
 #if defined(VL_MODE_SHAPE)
@@ -46,7 +46,6 @@ int KSI_VerificationRule_AggregationHashChainIndexConsistency(KSI_VerificationCo
 __CPROVER_requires(VR_PRE(info, result) && VL_PRE)
 __CPROVER_ensures(VR_POST(vl_exp_walk(info, 0, SPEC_VERR_INT(10)), result))
 __CPROVER_ensures(VL_COMPLETE(info, result))
-__CPROVER_assigns(result != NULL: *result; g_vl_calls, g_vl_prev, g_vl_fail, g_vl_na, g_vl_c[0].chainIndex, g_vl_c[1].chainIndex, g_vl_il_len[0], g_vl_il_len[1],
-		g_vl_iv[0], g_vl_iv[1], g_vl_il_last[0], g_vl_il_last[1], g_vl_shape_known, g_vl_shape);
+__CPROVER_assigns(result != NULL: *result; g_vl_calls, g_vl_prev, g_vl_fail, g_vl_na, g_vl_il_len[0], g_vl_il_len[1], g_vl_iv[0].value, g_vl_iv[1].value, g_vl_shape_known, g_vl_shape);
 #endif
 #endif
